@@ -135,8 +135,7 @@ fn hash_bytes(mut hash: u64, key: &[u8]) -> u64 {
 impl Handle {
     pub fn from_bytes(key: &[u8]) -> Self {
         let hash = hash_bytes(2166136261, key);
-        debug_assert!(hash != 0);
-        Self(hash as u32)
+        Self(non_zero(hash as u32))
     }
 
     pub fn from_slice<'a, T>(keys: &'a [T]) -> Self
@@ -147,8 +146,7 @@ impl Handle {
         for key in keys {
             hash = hash_bytes(hash, key.into());
         }
-        debug_assert!(hash != 0);
-        Self(hash as u32)
+        Self(non_zero(hash as u32))
     }
 
     pub fn from_bytes_iter<'a>(keys: impl Iterator<Item = &'a [u8]>) -> Self {
@@ -156,8 +154,7 @@ impl Handle {
         for key in keys {
             hash = hash_bytes(hash, key);
         }
-        debug_assert!(hash != 0);
-        Self(hash as u32)
+        Self(non_zero(hash as u32))
     }
 
     pub fn from_u32(key: u32) -> Self {
@@ -190,7 +187,13 @@ fn hash_u64(key: u64, mask: u64) -> u32 {
     key = (((key >> 16) ^ key) * Wrapping(0x45d0f3b)) & mask;
     key = ((key >> 16) ^ key) & mask;
     debug_assert!(key.0 != 0);
-    ((key >> 32) ^ key).0 as u32
+    non_zero(((key >> 32) ^ key).0 as u32)
+}
+
+/// 0 marks an empty slot of the table: a hash of 0 becomes 1
+#[inline]
+fn non_zero(hash: u32) -> u32 {
+    hash + (hash == 0) as u32
 }
 
 impl std::ops::Add for Handle {
@@ -198,7 +201,7 @@ impl std::ops::Add for Handle {
 
     fn add(self, rhs: Self) -> Self::Output {
         #[allow(clippy::suspicious_arithmetic_impl)]
-        Self(self.0 ^ rhs.0)
+        Self(non_zero(self.0 ^ rhs.0))
     }
 }
 
